@@ -83,6 +83,7 @@ def p2_run(ctx):
             procs.append((subprocess.Popen([exe, "-seed", str(ctx.seed), "-n", str(n), "-crash", str(ncrash), "-shards", str(shards), "-shard", str(i)],
                                            stdout=of, stderr=subprocess.PIPE, env=dict(os.environ, **vlib.GOENV)), of))
         outs = []
+        crashed = []
         for i, (p, of) in enumerate(procs):
             try:
                 _, se = p.communicate(timeout=6000)
@@ -91,7 +92,14 @@ def p2_run(ctx):
                 raise vlib.CheckError("p2 harness shard timed out")
             of.close()
             if p.returncode != 0:
-                raise vlib.CheckError("p2 harness shard failed rc=%s\n%s" % (p.returncode, se.decode("utf8", "replace")[-3000:]))
+                err = se.decode("utf8", "replace")
+                if "panic:" in err and "github.com/onosproject/onos-config/pkg/" in err:
+                    # the code under verification panicked inside the harness process (a reconcile goroutine nobody
+                    # recovers): that is the server process dying - a finding of its own, not a tooling failure
+                    at = err.rfind("panic:")
+                    crashed.append(err[max(0, at - 300):at + 2500])
+                    continue  # the lines of that shard are dropped (its last history is incomplete)
+                raise vlib.CheckError("p2 harness shard failed rc=%s\n%s" % (p.returncode, err[-3000:]))
             fn = os.path.join(cdir, "%s.shard%d" % (key, i))
             outs.append(open(fn, "rb").read())
             os.remove(fn)
@@ -130,6 +138,7 @@ def p2_run(ctx):
                 res["specviols"] += r["specviols"]
                 res["samples"] += r["samples"]
         res["samples"] = res["samples"][:40]
+        res["crashed_shards"] = crashed
         res["nlines"] = so.count("\n")
         res["harness_s"] = round(time.time() - t0, 1)
         # keep the cache small
@@ -178,6 +187,11 @@ def p2_judge(ctx, res, prefixes, what):
                       {"case": v["id"], "signature": v["signature"], "detail": v["detail"],
                        "history": history_of(ctx.p2_lines, v["id"]),
                        "how": "harness/cmd/p2 -seed %s -one <n of history %s>: the lines are the observations of the real reconcilers" % (ctx.seed, v["id"].split(":")[0])})
+    for tr in res.get("crashed_shards", [])[:2]:
+        ctx.violation("the code under verification panicked during the protocol run (an unrecovered panic in a reconcile goroutine "
+                      "ends the server process): " + " ".join(tr.split())[:600],
+                      {"signature": "c12_process_crash_in_controller", "trace": tr,
+                       "how": "harness/cmd/p2 -seed %s (the shard that died; the trace names the frame in /repo)" % ctx.seed})
     mm = [m for m in res["mismatches"] if ("[" not in m["detail"][:3]) or (prop in m["detail"].split("]")[0])]
     if mm:
         m = mm[0]
